@@ -23,6 +23,7 @@ def run(repo, report, tier):
     report.guard("C20.R2", "add_match bodies", r2_tallies, repo, report)
     report.guard("C20.R3", "Statistics._collect_modifier", r3_collect, repo, report)
     report.guard("C20.R6", "ErrorRanges call sites", r6_error_ranges, repo, report)
+    report.guard("C20.R2", "histogram rows", r2_histogram_rows, repo, report)
     report.notes.append("C20.R4 (merge of statistics is complete and additive) is C06.R4; C20.R5 (removed_sequence_length) is C03.R4. Not decided: the 'allowed errors' arithmetic of ErrorRanges (int(e/rate)-1 is not max{L: floor(L*rate) < e} when 1/rate is not an integer: -e 0.15, length 20 reports [5, 12, 19, 20], true [6, 13, 19, 20]) - a numeric defect seen while reading, outside the reach of a shape rule.")
 
 
@@ -349,3 +350,43 @@ def r6_error_ranges(repo, report):
     st = {chain(t): src(n.value) for n in ast.walk(init) if isinstance(n, (ast.Assign, ast.AnnAssign)) for t in ([n.target] if isinstance(n, ast.AnnAssign) else n.targets) if chain(t)}
     ok = st.get("self.effective_length") == f"{ap}.effective_length" and st.get("self.max_error_rate") == f"{ap}.max_error_rate" and st.get("self.sequence") == f"{ap}.sequence"
     report.ob("C20.R6", "EndStatistics copies the adapter's parameters", ok, facts={k: v for k, v in st.items() if k in ("self.effective_length", "self.max_error_rate", "self.sequence")}, expected="effective_length, max_error_rate, sequence taken from the adapter", loc=repo.loc(init))
+
+
+def r2_histogram_rows(repo, report):
+    """What add_match tallies under errors[length][k] is reported as the k-th entry of the row's error counts: the list
+    is indexed by the number of errors, so it must run over 0..max without gaps."""
+    fn = repo.func("report", "histogram_rows")
+    rows_ = [x for x in calls(fn) if chain(x.func) == "HistogramRow"]
+    if len(rows_) != 1:
+        raise Unrecognised("histogram_rows: HistogramRow construction not found", repo.loc(fn))
+    kw = {k.arg: k.value for k in rows_[0].keywords}
+    ec = kw.get("error_counts")
+    comp = None
+    if isinstance(ec, ast.Name):
+        defs = [n.value for n in ast.walk(fn) if isinstance(n, ast.Assign) and chain(n.targets[0]) == ec.id]
+        comp = defs[-1] if defs else None
+    elif ec is not None:
+        comp = ec
+    facts = {"error_counts": src(comp)[:120] if comp is not None else None}
+    ok = None
+    if isinstance(comp, ast.ListComp) and len(comp.generators) == 1 and isinstance(comp.generators[0].target, ast.Name):
+        g = comp.generators[0]
+        t = g.target.id
+        it = g.iter
+        elt_ok = isinstance(comp.elt, ast.Subscript) and src(comp.elt.slice) == t and not g.ifs
+        table = src(comp.elt.value) if isinstance(comp.elt, ast.Subscript) else None
+        rng = isinstance(it, ast.Call) and chain(it.func) == "range" and len(it.args) in (1, 2) and (len(it.args) == 1 or src(it.args[0]) == "0")
+        upper = it.args[-1] if rng else None
+        # the upper bound is (largest error number seen for this length) + 1
+        top_ok = False
+        if upper is not None and isinstance(upper, ast.BinOp) and isinstance(upper.op, ast.Add) and src(upper.right) == "1":
+            base = upper.left
+            if isinstance(base, ast.Name):
+                d2 = [n.value for n in ast.walk(fn) if isinstance(n, ast.Assign) and chain(n.targets[0]) == base.id]
+                base = d2[-1] if d2 else base
+            top_ok = isinstance(base, ast.Call) and chain(base.func) == "max" and len(base.args) == 1 and table is not None and src(base.args[0]) in (table, f"{table}.keys()")
+        facts.update({"iterates": src(it), "element": src(comp.elt), "dense_range_from_0": bool(rng), "up_to_largest_error_number": top_ok})
+        sparse = table is not None and src(it).replace(" ", "") in (table, f"sorted({table})", f"{table}.keys()", f"sorted({table}.keys())", f"list({table})")
+        ok = True if (elt_ok and rng and top_ok) else False if sparse else None  # any other shape is not judged
+    report.ob("C20.R2", "histogram_rows: error_counts[k] is the tally for k errors", ok, facts=facts, expected="[errors[length][e] for e in range(max(errors[length]) + 1)] (dense, position = number of errors)", loc=repo.loc(rows_[0]),
+              why="" if ok is not False else "the list skips error numbers that did not occur, so later counts shift to lower error columns in the text and JSON reports")
